@@ -168,7 +168,64 @@ def aliased(ctx, cname):
             ctx.fail(cid, site, 'mismatch', dict(P, what='type'), 'x %s x on %d values gives %s, not a list of %d booleans' % (opn, m, descr(res), m))
 
 
+DELTAS = (0.0, 1e-12, 1e-9, 1e-7, 3e-6, 1e-4, 1e-2)
+
+
+def near_equal(ctx, cname):
+    """== and != on sequences whose i-th elements differ by delta_i in {0 .. 1e-2} at magnitudes 1, 1e3, 1e6: whatever tolerance
+    the single-valued comparison applies, element i of the sequence comparison must apply the same one (differential oracle)"""
+    def mk(ks, mag, deltas):
+        X = build(cname, ks)
+        for x, d in zip(X.data, deltas):
+            if cname in ('SE2', 'SE3'):
+                n = x.shape[0] - 1
+                x[:n, n] *= mag
+                x[0, n] += d
+                x[1, 0] += d * 1e-3 if mag == 1 else 0.0
+            elif cname in ('SO2', 'SO3'):
+                x[0, 1] += d
+            else:
+                x *= mag if cname != 'UnitQuaternion' else 1.0
+                x[1] += d
+        return X
+    mags = (1.0, 1e3, 1e6) if cname not in ('SO2', 'SO3', 'UnitQuaternion') else (1.0,)
+    for (opn, opf), M, mag, off, shape in itertools.product(OPS[4:], range(2, 6), mags, range(0, len(DELTAS), 2), ('MM', '1M', 'M1')):
+        cid = 'C09/%s/%s/near/M=%d/mag=%g/off=%d/%s' % (cname, opn, M, mag, off, shape)
+        if not ctx.want(cid):
+            continue
+        ks = [2 + j for j in range(M)]
+        if shape == '1M':
+            lks, rks = [ks[0]], [ks[0]] * M
+        elif shape == 'M1':
+            lks, rks = [ks[0]] * M, [ks[0]]
+        else:
+            lks, rks = ks, ks
+        dl = [DELTAS[(off + j) % len(DELTAS)] for j in range(M)]
+        zero = [0.0] * M
+        site = '%s.%s' % (cname, 'eq' if opn == '==' else 'ne')
+        P = dict(cls=cname, op=opn, m=len(lks), n=len(rks), mode='near', mag=mag)
+        ok1, r1 = call(opf, mk(ks[:1], mag, zero), mk(ks[:1], mag, zero))
+        if not ok1:
+            continue
+        ctx.case(cid, key=cid)
+        # the perturbation sits on the side that has M values
+        L = mk(lks, mag, dl if shape == 'M1' else zero[:len(lks)])
+        R = mk(rks, mag, dl if shape != 'M1' else zero[:len(rks)])
+        ok, res = call(opf, L, R)
+        if not ok:
+            ctx.fail(cid, site, 'raises:' + type(res).__name__, P, '%r' % (res,))
+            continue
+        singles = []
+        for i in range(M):
+            a = mk([lks[i if len(lks) > 1 else 0]], mag, [dl[i] if shape == 'M1' else 0.0])
+            b_ = mk([rks[i if len(rks) > 1 else 0]], mag, [dl[i] if shape != 'M1' else 0.0])
+            singles.append(opf(a, b_))
+        compare(ctx, cid, site, P, res, singles, M)
+        ctx.cell(site, 'near', shape, 'mixed' if len({bool(x) for x in singles}) > 1 else 'uniform')
+
+
 def binary(ctx, cname):
+    near_equal(ctx, cname)
     aliased(ctx, cname)
     top = 6 if ctx.tier == 'quick' else 8
     for (opn, opf), m, n, vs in itertools.product(OPS, range(1, top), range(1, top), (0, 1) if ctx.tier == 'quick' else (0, 1, 2, 3)):
